@@ -110,6 +110,7 @@ def jobs(seed=0):
         J.append(j)
     J += rot_vec_jobs(seed)
     J += big_jobs(seed)
+    J += dft_jobs(seed)
     NQ4 = [(1, 4)]
     for n, (rs, as_) in enumerate(NQ4):
         sp = stride_pick(seed, 2, n)
@@ -233,4 +234,50 @@ def big_jobs(seed=0):
                              replace=[(callee, cc)], defines=d, functions=[fn], timeout=600,
                              cbmc_flags=["--no-signed-overflow-check"],
                              bound_note="limb counts (%d,%d), alias %d" % (rs, as_, alias), replay={"driver": "vec_big", "fn": fn}))
+    return J
+
+
+# ---------------------------------------------------------------------------------------------------------------
+# FFT64 DFT / iDFT / SVP / small-product wrappers: frame and extent proofs with assumed callee frame contracts
+
+DFT_REPL = [("reim_from_znx64", "reim_from_znx64__c"), ("reim_fft", "reim_fft__c"), ("reim_ifft", "reim_ifft__c"),
+            ("reim_to_znx64", "reim_to_znx64__c"), ("reim_fftvec_mul", "reim_fftvec_mul__c")]
+
+
+def dft_jobs(seed=0):
+    J = []
+    P = ["C11", "C18", "C15", "C12"]
+    shapes = [(0, 0), (1, 1), (2, 2), (1, 2), (2, 1), (3, 1), (0, 2), (2, 0)]
+
+    def add(nm, entry, fn, contract, srcs, rs, as_, alias=0, strides=(1, 0), extra_props=None):
+        d = {"RS": rs, "AS": as_, "AM": strides[0], "AA": strides[1], "ALIAS": alias}
+        J.append(Job(name="dft.%s.r%da%d.s%d%d.al%d" % (nm, rs, as_, strides[0], strides[1], alias), props=P + (extra_props or []), shape="S3", sources=srcs,
+                     harness="vec_dft.c", entry=entry, enforce=[(fn, contract)], replace=list(DFT_REPL), defines=d,
+                     cbmc_flags=["--unwind", str(max(rs, as_) + 2), "--unwinding-assertions", "--object-bits", "10"], functions=[fn], timeout=900,
+                     bound_note="limb counts (res,a)=(%d,%d), alias %d; transform/conversion callees replaced by ASSUMED frame contracts" % (rs, as_, alias)))
+    for n, (rs, as_) in enumerate(shapes):
+        st = STRIDES[(seed + n) % 3]
+        add("vec_znx_dft", "h_dft", "fft64_vec_znx_dft", "fft64_vec_znx_dft__c", ["arithmetic/vec_znx_dft.c"], rs, as_, strides=st)
+        add("vec_znx_idft", "h_idft", "fft64_vec_znx_idft", "fft64_vec_znx_idft__c", ["arithmetic/vec_znx_dft.c"], rs, as_)
+        if rs and as_:
+            add("vec_znx_idft", "h_idft", "fft64_vec_znx_idft", "fft64_vec_znx_idft__c", ["arithmetic/vec_znx_dft.c"], rs, as_, alias=1, extra_props=["C13"])
+        add("vec_znx_idft_tmp_a", "h_idft_tmp_a", "fft64_vec_znx_idft_tmp_a", "fft64_vec_znx_idft_tmp_a__c", ["arithmetic/vec_znx_dft.c"], rs, as_)
+        add("svp_apply_dft", "h_svp_apply", "fft64_svp_apply_dft_ref", "fft64_svp_apply_dft__c", ["arithmetic/scalar_vector_product.c"], rs, as_, strides=st)
+    NTT_REPL = [("q120_b_from_znx64_simple", "q120_b_from_znx64_simple__c"), ("q120_ntt_bb_avx2", "q120_ntt_bb_avx2__c"),
+                ("q120_intt_bb_avx2", "q120_intt_bb_avx2__c"), ("q120_b_to_znx128_simple", "q120_b_to_znx128_simple__c")]
+    for n, (rs, as_) in enumerate(shapes):
+        st = STRIDES[(seed + n + 1) % 3]
+        # ntt120_vec_znx_idft{,_tmp_a}_avx (contracts in vec_dft.c) are not registered: the callee precondition on
+        # module->mod.q120.p_intt (second member of a union viewed through byte_extract) fails spuriously in CBMC 6.11
+        # although the same construction on p_ntt is accepted; not understood, reported as not covered (DESIGN 5/C11)
+        for nm, entry, fn, c in (("ntt120_vec_znx_dft", "h_ntt120_dft", "ntt120_vec_znx_dft_avx", "ntt120_vec_znx_dft__c"),):
+            add(nm, entry, fn, c, ["arithmetic/vec_znx_dft.c"], rs, as_, strides=st if "idft" not in nm else (1, 0))
+            J[-1].replace = list(NTT_REPL)
+    add("svp_prepare", "h_svp_prepare", "fft64_svp_prepare_ref", "fft64_svp_prepare__c", ["arithmetic/scalar_vector_product.c"], 1, 1)
+    add("znx_small_single_product", "h_small_product", "fft64_znx_small_single_product", "fft64_znx_small_single_product__c", ["arithmetic/znx_small.c"], 1, 1)
+    J.append(Job(name="dft.tmp_bytes_formulas", props=["C11"], shape="S2", sources=["arithmetic/znx_small.c", "arithmetic/vec_znx_dft.c", "arithmetic/vec_znx.c",
+                                                                                   "arithmetic/vec_znx_big.c", "arithmetic/scalar_vector_product.c"],
+                 harness="vec_dft.c", entry="h_tmp_bytes", no_dfcc=True, defines={"RS": 1, "AS": 1}, cbmc_flags=["--unwind", "3", "--object-bits", "10"],
+                 functions=["fft64_znx_small_single_product_tmp_bytes", "fft64_vec_znx_idft_tmp_bytes", "vec_znx_normalize_base2k_tmp_bytes_ref", "fft64_bytes_of_vec_znx_dft",
+                            "fft64_bytes_of_vec_znx_big", "fft64_bytes_of_svp_ppol"], timeout=300))
     return J
